@@ -36,6 +36,7 @@ func (o op) String() string {
 type scenario struct {
 	Progs [][]op `json:"progs"`
 	Bound int    `json:"bound"`
+	Nil   bool   `json:"nil,omitempty"` // every f returns the nil interface (a legal result)
 }
 
 func (s scenario) String() string {
@@ -50,6 +51,9 @@ func (s scenario) String() string {
 	b := "unbounded"
 	if s.Bound >= 0 {
 		b = fmt.Sprintf("preemptions<=%d", s.Bound)
+	}
+	if s.Nil {
+		b += " f-returns-nil"
 	}
 	return strings.Join(ps, " || ") + " " + b
 }
@@ -75,6 +79,7 @@ type obs struct {
 	mu         sync.Mutex
 	FCount     map[int]int
 	FVal       map[int]*value // value returned by the first completed invocation
+	FDone      map[int]bool   // some invocation of f for the key has completed
 	DoReturned map[int]bool   // some Do for the key has returned
 	Calls      [][]*call      // per thread
 	Seq        int
@@ -88,7 +93,7 @@ type instance struct {
 
 func (in *instance) body() {
 	vsync.ResetNames()
-	o := &obs{FCount: map[int]int{}, FVal: map[int]*value{}, DoReturned: map[int]bool{}, Calls: make([][]*call, len(in.sc.Progs))}
+	o := &obs{FCount: map[int]int{}, FVal: map[int]*value{}, FDone: map[int]bool{}, DoReturned: map[int]bool{}, Calls: make([][]*call, len(in.sc.Progs))}
 	in.o = o
 	c := new(par.Cache)
 	in.c = c
@@ -114,10 +119,16 @@ func (in *instance) body() {
 						o.mu.Unlock()
 						sched.Point(sched.Op{Kind: "f-running", Obj: fmt.Sprint(p.Key)})
 						o.mu.Lock()
-						if o.FVal[p.Key] == nil {
-							o.FVal[p.Key] = v
+						if !o.FDone[p.Key] {
+							o.FDone[p.Key] = true
+							if !in.sc.Nil {
+								o.FVal[p.Key] = v
+							}
 						}
 						o.mu.Unlock()
+						if in.sc.Nil {
+							return nil
+						}
 						return v
 					})
 				} else {
@@ -128,10 +139,10 @@ func (in *instance) body() {
 				o.mu.Lock()
 				cl.Returned = true
 				if p.Do {
-					cl.Early = o.FVal[p.Key] == nil
+					cl.Early = !o.FDone[p.Key]
 					o.DoReturned[p.Key] = true
 				} else if res != nil {
-					cl.Unfinished = o.FVal[p.Key] == nil
+					cl.Unfinished = !o.FDone[p.Key]
 				}
 				if res != nil {
 					cl.Result, _ = res.(*value)
@@ -178,7 +189,7 @@ func (in *instance) judge() (string, string) {
 				if c.Early {
 					return "do-returned-early", fmt.Sprintf("T%d %s returned before the single invocation of f had completed", c.Thread, c.Op)
 				}
-				if c.Result == nil || c.Result != want {
+				if (c.Result == nil && !in.sc.Nil) || c.Result != want {
 					return "do-wrong-value", fmt.Sprintf("T%d %s returned %v, the single invocation of f returned %v", c.Thread, c.Op, c.Result, want)
 				}
 			} else {
@@ -188,7 +199,7 @@ func (in *instance) judge() (string, string) {
 				if c.Result != nil && c.Result != want {
 					return "get-wrong-value", fmt.Sprintf("T%d %s returned %v, want nil or %v", c.Thread, c.Op, c.Result, want)
 				}
-				if c.Result == nil && c.MustSee {
+				if c.Result == nil && c.MustSee && !in.sc.Nil {
 					return "get-missed-value", fmt.Sprintf("T%d %s returned nil although a Do for the key had already returned", c.Thread, c.Op)
 				}
 			}
@@ -338,12 +349,29 @@ func scenarios(th bool) []scenario {
 	var scs []scenario
 	for _, ms := range multisets(programs(2), 2) {
 		if usesKey1First(ms) {
-			scs = append(scs, scenario{ms, -1})
+			scs = append(scs, scenario{Progs: ms, Bound: -1})
 		}
 	}
 	for _, ms := range multisets(programs(1), 3) {
 		if usesKey1First(ms) {
-			scs = append(scs, scenario{ms, -1})
+			scs = append(scs, scenario{Progs: ms, Bound: -1})
+		}
+	}
+	// the same scenarios with every f returning nil
+	hasDo := func(ps [][]op) bool {
+		for _, p := range ps {
+			for _, o := range p {
+				if o.Do {
+					return true
+				}
+			}
+		}
+		return false
+	}
+	for _, sc := range append([]scenario(nil), scs...) {
+		if hasDo(sc.Progs) {
+			sc.Nil = true
+			scs = append(scs, sc)
 		}
 	}
 	// three threads, up to two calls each: quick takes those with at most 4 calls
@@ -363,7 +391,7 @@ func scenarios(th bool) []scenario {
 		if n <= 3 || n > maxTotal {
 			continue // <= 3 is covered above
 		}
-		scs = append(scs, scenario{ms, -1})
+		scs = append(scs, scenario{Progs: ms, Bound: -1})
 	}
 	return scs
 }
